@@ -1,11 +1,193 @@
-/- Driver for C05 (stub — not built yet) -/
+/-
+Driver for C05: parses the scripted timer programs of a case, runs them through the Lean model
+(`Timer.Sim.run` with the repaired `Timer.next` — the definitions the theorems in Props/C05.lean are
+about) and compares every observation the real simulation produced (completion times of every
+await, timeout outcomes, interval ticks, final time, unfinished / cancelled joins).
+
+kind=reject : the implementation history contradicts the property itself, decided without the
+              model for tasks made of plain `sleep D | until T | timeout D sleep D2 | nop` lines in
+              modules that never shut down (completion time must be previous completion + D, …),
+              or the model run violates the wake-up invariant
+kind=diverge: implementation ≠ model anywhere else
+-/
+import Desverif.Model.TimerSim
 import Driver.Common
 namespace Driver.C05
-open Driver
+open Timer Driver
+
+def parseE : Nat → List String → Option (Fut × List String)
+  | 0, _ => none
+  | fuel + 1, toks =>
+    match toks with
+    | "nop" :: r => some (.nop, r)
+    | "forever" :: r => some (.until_ tMax, r)
+    | "sleep" :: d :: r => d.toNat?.map fun d => (.sleep d, r)
+    | "until" :: t :: r => t.toNat?.map fun t => (.until_ t, r)
+    | "timeout" :: d :: r =>
+      match d.toNat?, parseE fuel r with
+      | some d, some (e, r') => some (.timeout d e, r')
+      | _, _ => none
+    | "select" :: r =>
+      match parseE fuel r with
+      | some (a, r1) =>
+        match parseE fuel r1 with
+        | some (b, r2) => some (.select a b, r2)
+        | none => none
+      | none => none
+    | "seq" :: r =>
+      match parseE fuel r with
+      | some (a, r1) =>
+        match parseE fuel r1 with
+        | some (b, r2) => some (.seq a b, r2)
+        | none => none
+      | none => none
+    | "new" :: x :: d :: r => d.toNat?.map fun d => (.new x d, r)
+    | "newu" :: x :: t :: r => t.toNat?.map fun t => (.newu x t, r)
+    | "poll" :: x :: r => some (.pollOnce x, r)
+    | "reset" :: x :: d :: r => d.toNat?.map fun d => (.reset x d, r)
+    | "resetu" :: x :: t :: r => t.toNat?.map fun t => (.resetu x t, r)
+    | "drop" :: x :: r => some (.drop x, r)
+    | "await" :: x :: r => some (.await x, r)
+    | "inew" :: x :: p :: m :: d :: r =>
+      let mode : Option Missed := match m with
+        | "burst" => some .burst | "delay" => some .delay | "skip" => some .skip | _ => none
+      match p.toNat?, mode, d.toNat? with
+      | some p, some mode, some d => if p = 0 then none else some (.inew x p mode d, r)
+      | _, _, _ => none
+    | "tick" :: x :: r => some (.tick x, r)
+    | "ireset" :: x :: r => some (.ireset x, r)
+    | "restart" :: d :: r => d.toNat?.map fun d => (.restart d, r)
+    | "halt" :: r => some (.halt, r)
+    | _ => none
+
+structure TLine where
+  idx : Nat
+  mod : Nat
+  task : String
+  fut : Fut
+  text : String
+  impl : List String
+
+/-- group lines into modules → tasks (in order of first appearance) → lines -/
+def addLine (progs : Array (List (String × List (Nat × Fut)))) (l : TLine) :
+    Array (List (String × List (Nat × Fut))) :=
+  progs.modify l.mod fun tasks =>
+    if tasks.any (·.1 == l.task) then
+      tasks.map fun (tag, ls) => if tag == l.task then (tag, ls ++ [(l.idx, l.fut)]) else (tag, ls)
+    else tasks ++ [(l.task, [(l.idx, l.fut)])]
+
+def showObs (o : Obs) : String := s!"{o.inc}.{o.kind}@{o.time}"
+
+def usesShutdown : Fut → Bool
+  | .restart _ | .halt => true
+  | .timeout _ e | .timeoutRun _ e => usesShutdown e
+  | .select a b | .seq a b => usesShutdown a || usesShutdown b
+  | _ => false
+
+/-- model-free expectation for a plain line, given the task's clock; `none` = not a plain line -/
+def plainLine (clock : Nat) : Fut → Option (Nat × List String)
+  | .nop => some (clock, [])
+  | .sleep d => some (clock + d, [s!"0.s@{clock + d}"])
+  | .until_ t => if t ≥ tMax then none else let c := max clock t; some (c, [s!"0.s@{c}"])
+  | .timeout d (.sleep d2) =>
+    if d2 ≤ d then some (clock + d2, [s!"0.s@{clock + d2}", s!"0.ok@{clock + d2}"])
+    else some (clock + d, [s!"0.el@{clock + d}"])
+  | _ => none
+
+/-- expected observations of a plain task: list of (line idx, tokens); `none` if not plain -/
+def plainTask (clock : Nat) : List (Nat × Fut) → Option (Nat × List (Nat × List String))
+  | [] => some (clock, [])
+  | (i, f) :: rest =>
+    match plainLine clock f with
+    | none => none
+    | some (c, toks) =>
+      match plainTask c rest with
+      | none => none
+      | some (c', r) => some (c', (i, toks) :: r)
+
+def joinSp (l : List String) : String := if l.isEmpty then "-" else " ".intercalate l
+
+def natList (s : String) : List Nat := (s.splitOn ",").filterMap String.toNat?
+
+def runCase (c : Case) : String := Id.run do
+  let h := words c.header
+  let id := (h[1]?).getD "?"
+  let nmods := min (max ((kvNat h "mods").getD 1) 1) 8
+  let mut lines : Array TLine := #[]
+  let mut fin : Option (List String) := none
+  let mut i := 0
+  for line in c.body do
+    if line.startsWith "end" then continue
+    let (lhs, rhs) := splitArrow line
+    let l := words lhs
+    match l with
+    | "fin" :: _ => fin := some (words rhs)
+    | "t" :: m :: task :: rest =>
+      match m.toNat?, parseE (rest.length + 1) rest with
+      | some m, some (f, []) =>
+        if m < nmods then
+          lines := lines.push ⟨i, m, task, f, lhs, (words rhs).filter (· ≠ "-")⟩
+        else return s!"fail {id} op={i} kind=badline detail=[{line}]"
+      | _, _ => return s!"fail {id} op={i} kind=badline detail=[{line}]"
+    | _ => return s!"fail {id} op={i} kind=badline detail=[{line}]"
+    i := i + 1
+  let mut progs : Array (List (String × List (Nat × Fut))) := Array.replicate nmods []
+  for l in lines do progs := addLine progs l
+  let progsL : List (List (List (Nat × Fut))) := progs.toList.map fun tasks => tasks.map (·.2)
+  -- (A) model-free acceptance of plain tasks
+  let mut allPlain := true
+  let mut specEnd := 0
+  for tasks in progsL do
+    let shut := tasks.any fun t => t.any fun (_, f) => usesShutdown f
+    for t in tasks do
+      match (if shut then none else plainTask 0 t) with
+      | none => allPlain := false
+      | some (e, exp) =>
+        specEnd := max specEnd e
+        for (li, toks) in exp do
+          match lines.find? (·.idx == li) with
+          | some l =>
+            if l.impl != toks then
+              return s!"fail {id} op={li} kind=reject clause=deadline line=[{l.text}] spec={joinSp toks} impl={joinSp l.impl}"
+          | none => pure ()
+  -- (T) the model run
+  match Sim.run next progsL 200000 with
+  | none => return s!"fail {id} op=0 kind=internal detail=model-fuel-exhausted"
+  | some s =>
+    if !s.invOk then
+      return s!"fail {id} op=0 kind=reject clause=wakeinv detail=model-run-violates-WakeInv"
+    for l in lines do
+      let mtoks := (s.log.filter (·.line == l.idx)).map showObs
+      if mtoks != l.impl then
+        return s!"fail {id} op={l.idx} kind=diverge line=[{l.text}] model={joinSp mtoks} impl={joinSp l.impl}"
+    let munf := s.mods.map fun m => (m.tasks.filter (fun t => !t.done)).length
+    let mcan := s.mods.map (·.cancelled)
+    match fin with
+    | none => pure ()
+    | some r =>
+      match kvNat r "time", kv r "unfinished", kv r "cancelled", kvNat r "errs" with
+      | some t, some u, some k, some e =>
+        if e != 0 then
+          return s!"fail {id} op={i} kind=reject clause=errors impl=[{" ".intercalate r}]"
+        if allPlain && (t != specEnd || (natList u).any (· != 0)) then
+          return s!"fail {id} op={i} kind=reject clause=final spec=time={specEnd},unfinished=0 impl=[{" ".intercalate r}]"
+        if t != s.now || natList u != munf || natList k != mcan then
+          return s!"fail {id} op={i} kind=diverge line=[fin] model=time={s.now},unfinished={munf},cancelled={mcan} impl=[{" ".intercalate r}]"
+      | _, _, _, _ =>
+        return s!"fail {id} op={i} kind=reject clause=panic impl=[{" ".intercalate r}]"
+    let fired := (s.mods.map (·.fired)).foldl (· + ·) 0
+    let ef := (s.mods.map (·.emptyFront)).foldl (· + ·) 0
+    let ties := (s.mods.map (·.ties)).foldl (· + ·) 0
+    let restarts := (s.mods.map (·.inc)).foldl (· + ·) 0
+    let el := (s.log.filter (·.kind == "el")).length
+    let ticks := (s.log.filter (·.kind.startsWith "k")).length
+    let unf := munf.foldl (· + ·) 0
+    let nt := ef > 0 && fired ≥ 2
+    return s!"ok {id} nt={if nt then 1 else 0} events={s.events} fired={fired} emptyfront={ef} ties={ties} restarts={restarts} elapsed={el} ticks={ticks} unfinished={unf} obs={s.log.length}"
 
 def main (stdin : IO.FS.Stream) : IO Unit := do
   let cases ← readCases stdin
   for c in cases do
-    IO.println s!"fail {(words c.header)[1]?.getD "?"} op=0 kind=unimplemented"
+    IO.println (runCase c)
 
 end Driver.C05
